@@ -76,6 +76,8 @@ pub fn strategy() -> BoxedStrategy<Case> {
         8 => (1i32..=24, 1i32..=24),
         1 => (0i32..=3, 0i32..=3),
         1 => (1i32..=64, 1i32..=64),
+        // long rows and tall surfaces (anything kept in a byte or indexed by a narrowed row stride shows here)
+        1 => prop_oneof![(257i32..=700, 1i32..=5), (1i32..=5, 257i32..=700)],
     ];
     let farness = prop_oneof![7 => Just(0u8), 2 => Just(1u8), 1 => Just(2u8)];
     (size, farness)
@@ -126,6 +128,7 @@ pub fn check(c: &Case) -> CheckResult {
     o.class_if(c.path.evenodd, "evenodd");
     o.class_if(!c.aa, "aliased");
     o.class_if(c.w == 0 || c.h == 0, "zero-sized-surface");
+    o.class_if(c.w > 256 || c.h > 256, "surface-beyond-256");
     o.class_if(!matches!(c.path.ops.last(), Some(POp::Z)), "implicit-close");
     o.class_if(subs.len() > 1, "multi-subpath");
     if c.aa {
@@ -188,7 +191,7 @@ pub fn check(c: &Case) -> CheckResult {
 pub fn property(_ctx: &Ctx) -> Property {
     Property {
         id: "C01",
-        rule: "cases: random polygons (1-4 subpaths, 2-8 quarter-grid vertices each; near/straddling/far up to +-4000px; slivers, rects; implicit or explicit close; optional leading line_to), both winding rules, AA and aliased, surfaces 0..64 px, opaque white SrcOver on a transparent fresh target. Oracle: exact rational 4x4 supersampling model (ties and <n*2^-14 slope error accepted either way). Non-trivial: AA case with >=1 pixel whose possible coverage k has 0<k<16, or aliased case with >=1 must-paint and >=1 must-stay pixel; distinct by hash of the whole case.",
+        rule: "cases: random polygons (1-4 subpaths, 2-8 quarter-grid vertices each; near/straddling/far up to +-4000px; slivers, rects; implicit or explicit close; optional leading line_to), both winding rules, AA and aliased, surfaces 0..64 px plus 257..700 x 1..5 and 1..5 x 257..700, opaque white SrcOver on a transparent fresh target. Oracle: exact rational 4x4 supersampling model (ties and <n*2^-14 slope error accepted either way). Non-trivial: AA case with >=1 pixel whose possible coverage k has 0<k<16, or aliased case with >=1 must-paint and >=1 must-stay pixel; distinct by hash of the whole case.",
         assumptions: vec![
             "cells whose inside-ness depends on a rounding tie or on <n*2^-14 quarter units of accumulated slope error are not judged (counted in undecided_judgements)",
             "vertices within +-4000 px (the property's working coordinate range)",
